@@ -504,6 +504,9 @@ def check_C02(tier):
     out.add_s1(r, "MC_Interop publish (ClientSession || ServerSession || two FIFO message channels || accepting application; safety + liveness)")
     r = vlib.model_check("MC_Interop.tla", "MC_Interop_play.cfg", wd, timeout=1200, workers=4)
     out.add_s1(r, "MC_Interop play")
+    r = vlib.model_check("MC_AckStorm.tla", "MC_AckStorm.cfg", wd, workers=2)
+    out.add_s1(r, "MC_AckStorm (two acknowledging sides, all window pairs 1..12: the exchange falls silent iff one window exceeds the "
+                  "size of an acknowledgement; justifies that the driver does not wait for silence when both windows are tiny)")
     logs = sess_logs(wd, "interop", "x", tier)
     res = vlib.parallel([(lambda pth=pth: vlib.validate_trace("Trace_Interop.tla", pth, wd, {})) for pth, _ in logs], nproc=8)
     for (pth, info), r in zip(logs, res):
